@@ -17,7 +17,7 @@ from __future__ import annotations
 import ast
 from dataclasses import dataclass, field
 
-from sa.model import AnalysisError, Func, Program, norm
+from sa.model import AnalysisError, Func, Program, alpha, norm
 
 MUTATORS = {"append", "extend", "insert", "remove", "pop", "clear", "sort", "reverse", "update", "add", "discard",
             "setdefault", "popitem", "__setitem__", "__delitem__"}
@@ -304,6 +304,10 @@ class _Fn:
         return self.S
 
     # ------------------------------------------------------------------ helpers
+    def txt(self, node) -> str:
+        """statement text with this function's local names alpha-renamed: stable under renaming of locals"""
+        return alpha(node, self.f.node)[:200]
+
     def is_doc(self, origins) -> bool:
         return any(not o.startswith("G:") for o in origins)
 
@@ -317,14 +321,14 @@ class _Fn:
             if (o not in root) if sub is None else sub:
                 self.S.mut_sub.add(o)
         if kind == "doc" and via is None and self.eng.benign(self.f.key, self.f.node, node):
-            self.S.mut_sites.append(MutSite(self.f.key, node, norm(node)[:160], frozenset(origins), "benign", tcls, fld, op, via))
+            self.S.mut_sites.append(MutSite(self.f.key, node, self.txt(node), frozenset(origins), "benign", tcls, fld, op, via))
             return "benign"
         for o in origins:
             if o.startswith("G:") or kind == "registry":
                 self.S.reg_params.add(o)
             else:
                 self.S.mut_params.add(o)
-        self.S.mut_sites.append(MutSite(self.f.key, node, norm(node)[:160], frozenset(origins), kind, tcls, fld, op, via))
+        self.S.mut_sites.append(MutSite(self.f.key, node, self.txt(node), frozenset(origins), kind, tcls, fld, op, via))
         return kind
 
     def mutate(self, dirty, origins, node, op, tcls=None, fld=None, registry=False, via=None, sub=None):
@@ -336,7 +340,7 @@ class _Fn:
             return dirty
         origins = frozenset(o for o in origins if not o.startswith("G:"))
         if dirty is None:
-            return Dirty(norm(node)[:160], getattr(node, "lineno", 0), origins, self.f.key)
+            return Dirty(self.txt(node), getattr(node, "lineno", 0), origins, self.f.key)
         return Dirty(dirty.text, dirty.line, dirty.origins | origins, dirty.func)
 
     def catching(self, exc: str, handlers):
@@ -350,7 +354,7 @@ class _Fn:
         """An exception of class `exc` may be raised at `node` while the path is `dirty`; `callee_dirty` are
         caller-relative origins the raising callee may have mutated before raising."""
         h = self.catching(exc, handlers)
-        text = norm(node)[:160]
+        text = self.txt(node)
         if dirty is not None and self.eng.reviewed(dirty.func or self.f.key, dirty.text, text):
             dirty = None
         if h is not None:
@@ -1271,7 +1275,7 @@ def relevant_mutation_sites(eng: Effects, roots: list) -> list:
             if m.via is not None or m.kind == "registry":
                 continue
             if m.origins & rel[id(s)] or any(o.startswith("D:") for o in m.origins):
-                k = (m.func, m.text)
+                k = (m.func, m.text, getattr(m.node, "lineno", 0), getattr(m.node, "col_offset", 0))
                 if k not in seen:
                     seen.add(k)
                     out.append(m)
